@@ -1319,6 +1319,7 @@ static int cfg_parse_internal(cfg_t *cfg, int level, int force_state, cfg_opt_t 
 	cfg_opt_t funcopt = CFG_STR(NULL, NULL, 0);
 
 	int ignore = 0;		/* ignore until this token, traverse parser w/o error */
+	int skip_depth = 0;	/* nesting depth inside an unknown section being discarded */
 	int num_values = 0;	/* number of values found for a list option */
 	int rc;
 
@@ -1618,30 +1619,25 @@ static int cfg_parse_internal(cfg_t *cfg, int level, int force_state, cfg_opt_t 
 			}
 			break;
 
-		case 10: /* unknown option, mini-discard parser states: 10-15 */
+		case 10: /* unknown option, mini-discard parser states: 10-14 */
 			if (comment) {
 				free(comment);
 				comment = NULL;
 			}
 
-			if (tok == '+') {
-				ignore = '=';
-				state = 13; /* Append to list, should be followed by '=' */
-			} else if (tok == '=') {
-				ignore = 0;
-				state = 14; /* Assignment, regular handling */
+			if (tok == '+' || tok == '=') {
+				state = 14; /* Assignment or append, value or list follows */
 			} else if (tok == '(') {
 				ignore = ')';
 				state = 13; /* Function, ignore until end of param list */
 			} else if (tok == '{') {
+				skip_depth++;
 				state = 12; /* Section, ignore all until closing brace */
 			} else if (tok == CFGT_STR) {
 				state = 11; /* No '=' ... must be a titled section */
-			} else if (tok == '}' && force_state == 10) {
-				if (comment)
-					free(comment);
-
-				return STATE_CONTINUE;
+			} else {
+				cfg_error(cfg, _("unexpected token '%s'"), cfg_yylval);
+				goto error;
 			}
 			break;
 
@@ -1650,37 +1646,28 @@ static int cfg_parse_internal(cfg_t *cfg, int level, int force_state, cfg_opt_t 
 				cfg_error(cfg, _("unexpected token '%s'"), cfg_yylval);
 				goto error;
 			}
+			skip_depth++;
 			state = 12;
 			break;
 
-		case 12: /* unknown option, recursively ignore entire sub-section */
-			rc = cfg_parse_internal(cfg, level + 1, 10, NULL);
-			if (rc != STATE_CONTINUE)
+		case 12: /* unknown section body, expecting an option name or the closing brace */
+			if (tok == '}') {
+				if (--skip_depth == 0)
+					state = 0;
+			} else if (tok == CFGT_STR) {
+				state = 10;
+			} else {
+				cfg_error(cfg, _("unexpected token '%s'"), cfg_yylval);
 				goto error;
-			ignore = '}';
-			state = 13;
+			}
 			break;
 
 		case 13: /* unknown option, consume tokens silently until end of func/list */
 			if (tok != ignore)
 				break;
 
-			if (ignore == '=') {
-				ignore = 0;
-				state = 14;
-				break;
-			}
-
-			/* Are we done with recursive ignore of sub-section? */
-			if (force_state == 10) {
-				if (comment)
-					free(comment);
-
-				return STATE_CONTINUE;
-			}
-
 			ignore = 0;
-			state = 0;
+			state = skip_depth ? 12 : 0;
 			break;
 
 		case 14: /* unknown option, assuming value or start of list */
@@ -1695,15 +1682,7 @@ static int cfg_parse_internal(cfg_t *cfg, int level, int force_state, cfg_opt_t 
 				goto error;
 			}
 
-			ignore = 0;
-			if (force_state == 10)
-				state = 15;
-			else
-				state = 0;
-			break;
-
-		case 15: /* unknown option, dummy read of next parameter in sub-section */
-			state = 10;
+			state = skip_depth ? 12 : 0;
 			break;
 
 		default:
